@@ -32,6 +32,10 @@ func StdUniverse() *Universe {
 		u.add(&Decl{Pkg: pkg, Name: "G", TParams: 1, Under: St(F("V", B("T0")))})
 		u.add(&Decl{Pkg: pkg, Name: "NM", Under: M(B("string"), B("int"))})
 		u.add(&Decl{Pkg: pkg, Name: "NS", Under: S(B("int"))})
+		// unexported fields that hold references: invisible to generated code of another package, so nothing of them may be shared
+		u.add(&Decl{Pkg: pkg, Name: "PR", Under: St(F("X", B("int")), F("m", M(B("string"), B("int"))), F("p", P(B("int"))), F("l", S(B("int"))))})
+		u.add(&Decl{Pkg: pkg, Name: "NFn", Under: Fn("(a int, b ...string) error")})
+		u.add(&Decl{Pkg: pkg, Name: "NCh", Under: Ch("<-", B("int"))})
 	}
 	// a type owned by a third package (neither the source's, the target's nor the converter's)
 	u.add(&Decl{Pkg: "third", Name: "T3", Under: St(F("V", B("int")), F("W", B("string")))})
@@ -82,6 +86,9 @@ func (u *Universe) ExoticLeaves() []*Ty {
 		&Ty{K: Struct, Fields: []Field{{Name: "A", T: B("int"), Tag: `json:"a,omitempty"`}}},
 		&Ty{K: Struct, Fields: []Field{{Name: "A", T: B("int"), Tag: "q`uote"}, {Name: "B", T: Fn("(...string)"), Tag: `json:"b"`}}},
 		&Ty{K: Struct, Fields: []Field{{Name: "P", T: p, Embedded: true}, {Name: "Z", T: B("int")}}},
+		N(u.Get("in", "PR")), N(u.Get("out", "PR")),
+		// named function and channel types (same and different packages)
+		N(u.Get("in", "NFn")), N(u.Get("out", "NFn")), N(u.Get("in", "NCh")), N(u.Get("out", "NCh")),
 		// third-package types, alone and inside an unnamed struct
 		N(u.Get("third", "T3")), N(u.Get("third", "ID3")), St(F("T", N(u.Get("third", "T3"))), F("I", N(u.Get("third", "ID3")))),
 		// boundary lengths of fixed-size arrays (the main alphabet only has length 2)
